@@ -41,7 +41,7 @@ const (
 
 // Peer classes.
 const (
-	LateUnknown  = "late-unknown"  // register, probe without unknown-handlers, set them on the peer, probe again
+	LateUnknown  = "late-unknown"  // register, probe without unknown-handlers, set unknown-call, probe, set unknown-push, probe
 	EarlyUnknown = "early-unknown" // set the unknown-handlers on the peer first, then register, probe
 	SubUnknown   = "sub-unknown"   // register, set the unknown-handlers through SubRouter.ToRouter(), probe
 )
@@ -97,7 +97,7 @@ type RegReport struct {
 // ProbeReport is the observation of one probe.
 type ProbeReport struct {
 	ID     string  `json:"id"`
-	Phase  string  `json:"phase"` // A: no unknown-handler set; B: set on the peer; S: set through a sub-router
+	Phase  string  `json:"phase"` // A: no unknown-handler set; C: only unknown-call set; B: both set on the peer; S: both set through a sub-router
 	Kind   string  `json:"kind"`  // call or push
 	Name   string  `json:"name"`
 	Class  string  `json:"class"`
@@ -531,7 +531,11 @@ func runPeer(idx int, spec PeerSpec) (rep PeerReport) {
 		if !run("A", nil) {
 			return
 		}
+		// only the unknown-CALL-handler: unregistered pushes must still reach nothing
 		srv.SetUnknownCall(ucall)
+		if !run("C", map[string]bool{"registered": true, "extension": true, "cross-namespace": true, "case": true, "prefix": true}) {
+			return
+		}
 		srv.SetUnknownPush(upush)
 		run("B", nil)
 	case EarlyUnknown:
